@@ -868,15 +868,24 @@ func c03CrashJoin(w *c03World, sess *paths.Session, cs c03Case, tag string) {
 		w.failed = true
 		return
 	}
-	w.slotOps(sess, "after-push-before-move#"+tag)
-	// one clean pass first so that the crash happens in the middle of the hand-over (with one table per fragment the
-	// first pass is the whole hand-over)
-	if cs.TS < 1<<20 {
-		w.balancePass()
+	// ReplicaCount 1, a single sender: the receiver dies at the first entry of the first table it is sent. It has
+	// acknowledged nothing, so every key is still on the sender and must stay readable (nothing is written after the
+	// join in this case: a key written to the new owner would legitimately die with it).
+	exact := cs.R == 1 && cs.N0 == 1 && role == "receiver"
+	if !exact {
+		w.slotOps(sess, "after-push-before-move#"+tag)
+		// one clean pass first so that the crash happens in the middle of the hand-over (with one table per fragment
+		// the first pass is the whole hand-over)
+		if cs.TS < 1<<20 {
+			w.balancePass()
+		}
 	}
 	var once sync.Once
 	fired := make(chan *cluster.Member, 1)
 	skip := 2 + w.rng.Intn(4)
+	if exact {
+		skip = 1
+	}
 	var cnt int
 	var mu sync.Mutex
 	handler := func(member, name string) {
@@ -973,6 +982,9 @@ func c03Cases(tier string, seed int64) []c03Case {
 		add(c03Case{N0: 2, Steps: "join", R: 2, TS: 512, Crash: "sender:move.after-send"})
 		add(c03Case{N0: 2, Steps: "join", R: 2, TS: 512, Crash: "sender:move.before-drop"})
 		add(c03Case{N0: 2, Steps: "join", R: 2, TS: 512, Crash: "receiver:merge.entry"})
+		// ReplicaCount 1: the only copy of a key is in the table that is being moved when the receiver dies
+		add(c03Case{N0: 1, Steps: "join", R: 1, TS: 512, Crash: "receiver:merge.entry", P: 13})
+		add(c03Case{N0: 1, Steps: "join", R: 1, TS: 2048, Crash: "receiver:merge.entry"})
 		return cs
 	}
 	for _, ts := range []uint64{256, 1024, 1 << 20} {
@@ -996,6 +1008,7 @@ func c03Cases(tier string, seed int64) []c03Case {
 				add(c03Case{N0: 2, Steps: "join,leave-coordinator", R: r, TS: ts})
 				add(c03Case{N0: 3, Steps: "join,leave,join", R: r, TS: ts})
 				add(c03Case{N0: 3, Steps: "leave,join", R: r, TS: ts})
+				add(c03Case{N0: 1, Steps: "join", R: 1, TS: ts, Crash: "receiver:merge.entry", P: 13})
 				for _, cr := range []string{"sender:move.after-send", "sender:move.before-drop", "receiver:merge.entry"} {
 					add(c03Case{N0: 2, Steps: "join", R: r, TS: ts, Crash: cr})
 					add(c03Case{N0: 3, Steps: "join", R: r, TS: ts, Crash: cr, P: 13})
